@@ -555,10 +555,13 @@ def run_noexpand(res):
     seqs = [list(c) for L in (1, 2, 3) for c in itertools.product(names[:3], repeat=L)] + [["z z.map"], ["a.map", "z z.map", "a.map"]]
     for paths in seqs:
         for q in ('"', "'"):
-            for otype, extra in (("map", ""), ("layer", "TYPE POINT"), ("class", ""), ("style", "")):
+            for otype, extra in (("map", ""), ("layer", "TYPE POINT"), ("class", ""), ("style", ""), ("symbolset", ""), ("web", ""), ("legend", "")):
                 for kwpos in range(0, len(paths) + 1) if q == '"' else (1,):
                     inc = ["  INCLUDE %s%s%s" % (q, p, q) for p in paths]
-                    inc.insert(min(kwpos, len(inc)), '  %s "k"' % LINE_KW[otype])
+                    if otype in LINE_KW:
+                        inc.insert(min(kwpos, len(inc)), '  %s "k"' % LINE_KW[otype])
+                    elif kwpos:
+                        continue        # block types without a simple string keyword of their own: the INCLUDE lines alone
                     lines = [otype.upper()] + (["  " + extra] if extra else []) + inc + ["END"]
                     text = "\n".join(lines)
                     res["evals"] += 1
